@@ -11,7 +11,7 @@ GROUPS = {
  'Stack': ('CodeStack', 'codeMissingStack', 'dcmstack.py',
            [('file_idx_is_model', 'file_idx_eq'), ('file_idx_volume_is_model', 'file_idx_volume_eq'),
             ('get_shape_counts_is_model', 'get_shape_counts_eq'), ('accept_is_counts_and_order', 'acceptB_counts'),
-            ('get_data_trim_is_model', 'get_data_trim_eq'), ('chk_order_check_is_cellwise', 'chk_order_check_eq')]),
+            ('get_data_trim_is_model', 'get_data_trim_eq'), ('chk_order_check_is_cellwise', 'chk_order_check_eq'), ('cells_are_model_blocks', 'cells_eq_chunks'), ('get_shape_accepts_iff_model', 'source_accepts_iff')]),
 }
 for grp, (mod, missing, srcfile, pairs) in GROUPS.items():
     sys.argv = ['x', 'C00', '/verif/lean/DcmVerif/Proofs/%s.lean' % mod, 'Src.', 'DcmVerif.Proofs.%s' % mod]
